@@ -4,7 +4,7 @@ namespace JediModel.PyCore
 
 mutual
   def Expr.ternFree : Expr → Bool
-    | .int | .str | .name _ => true
+    | .int | .str | .name _ | .self => true
     | .tuple es => ternFreeList es
     | .index e _ => e.ternFree
     | .call f args => f.ternFree && ternFreeList args
@@ -19,7 +19,12 @@ def Stmt.ternFree : Stmt → Bool
   | .assign _ e => e.ternFree
   | .unpack _ e => e.ternFree
   | .defn _ _ ret => ret.ternFree
-  | .klass _ _ attrs => attrs.all fun ae => ae.2.ternFree
+  | .klass _ _ attrs init methods =>
+    (attrs.all fun ae => ae.2.ternFree) &&
+    (match init with
+     | some i => i.assigns.all fun ae => ae.2.ternFree
+     | none => true) &&
+    (methods.all fun m => m.ret.ternFree)
   | .probe e => e.ternFree
 
 def Prog.ternFree (p : Prog) : Bool := p.all Stmt.ternFree
@@ -31,7 +36,8 @@ mutual
     | .str => .str
     | .func i => .func i
     | .cls i => .cls i
-    | .inst i => .inst i
+    | .inst i vs => .inst i (eraseList vs)
+    | .bound r c m => .bound (erase r) c m
     | .tuple vs => .tuple (eraseList vs)
   def eraseList : List Val → List (List Shape)
     | [] => []
@@ -41,6 +47,15 @@ end
 def eraseCtx : CtxC → CtxA
   | .module i => .module i
   | .func id vs => .func id (eraseList vs)
+  | .meth c m sv vs => .meth c m (erase sv) (eraseList vs)
+
+/-- every attribute is assigned at most once in every `__init__` (jedi reports the union of all
+assignments to `self.a`, Python keeps the last) -/
+def SingleAssignInit (p : Prog) : Bool :=
+  p.all fun s =>
+    match s with
+    | .klass _ _ _ (some i) _ => i.assigns.all fun ae => (allAttr i.assigns ae.1).length ≤ 1
+    | _ => true
 
 theorem eraseList_getElem {vs : List Val} {k : Nat} {v : Val} (h : vs[k]? = some v) :
     (eraseList vs)[k]? = some [erase v] := by
@@ -96,11 +111,23 @@ theorem mapOpt_exact {f : Expr → Option Val} {g : Expr → List Shape} (es : L
         simp only [List.map_cons, eraseList]
         rw [h e b htf.1 hfe, ih htf.2 hrest]
 
+theorem methods_ternFree {ms : List Method} (h : ms.all (fun m => m.ret.ternFree) = true)
+    {a : Nat} {md : Method} (hf : findMethod ms a = some md) : md.ret.ternFree = true := by
+  unfold findMethod at hf
+  have hmem := (List.mem_filter.mp (List.mem_of_getLast? hf)).1
+  rw [List.all_eq_true] at h
+  exact h md hmem
+
 structure Exact (p : Prog) (fuel : Nat) : Prop where
   eval : ∀ cc e v, e.ternFree = true → evalC p fuel cc e = some v →
     mayE p fuel (eraseCtx cc) e = [erase v]
   name : ∀ x lim v, nameC p fuel x lim = some v → nameA p fuel x lim = [erase v]
-  attr : ∀ id a v, attrC p fuel id a = some v → attrA p fuel id a = [erase v]
+  attr : ∀ rc id a v, attrC p fuel rc id a = some v →
+    attrA p fuel (rc.map erase) id a = [erase v]
+  selfFound : ∀ id sv vs a v, selfAttrC p fuel id sv vs a = .found v →
+    selfAttrA p fuel id (erase sv) (eraseList vs) a = some [erase v]
+  selfMissing : ∀ id sv vs a, selfAttrC p fuel id sv vs a = .missing →
+    selfAttrA p fuel id (erase sv) (eraseList vs) a = none
 
 theorem exact_eval_succ (p : Prog) (hp : p.ternFree = true) (n : Nat) (ih : Exact p n) :
     ∀ cc e v, e.ternFree = true → evalC p (n + 1) cc e = some v →
@@ -139,8 +166,30 @@ theorem exact_eval_succ (p : Prog) (hp : p.ternFree = true) (n : Nat) (ih : Exac
             exact ih.name x p.length v h
         | assign _ _ => simp [hpj] at h
         | unpack _ _ => simp [hpj] at h
-        | klass _ _ _ => simp [hpj] at h
+        | klass _ _ _ _ _ => simp [hpj] at h
         | probe _ => simp [hpj] at h
+    | meth cid m sv args =>
+      simp only [evalC] at h
+      simp only [mayE, eraseCtx]
+      cases hmp : methodParams p cid m with
+      | none => simp [hmp] at h
+      | some params =>
+        simp only [hmp] at h ⊢
+        cases hi : indexOf params x with
+        | some i =>
+          simp only [hi] at h ⊢
+          simp [eraseList_getElem h]
+        | none =>
+          simp only [hi] at h ⊢
+          exact ih.name x p.length v h
+  | self =>
+    cases cc with
+    | module _ => simp [evalC] at h
+    | func _ _ => simp [evalC] at h
+    | meth cid m sv args =>
+      simp only [evalC, Option.some.injEq] at h
+      subst h
+      simp [mayE, eraseCtx]
   | tuple es =>
     simp only [Expr.ternFree] at htf
     simp only [evalC, Option.map_eq_some_iff] at h
@@ -163,7 +212,8 @@ theorem exact_eval_succ (p : Prog) (hp : p.ternFree = true) (n : Nat) (ih : Exac
       | str => simp [he] at h
       | func _ => simp [he] at h
       | cls _ => simp [he] at h
-      | inst _ => simp [he] at h
+      | inst _ _ => simp [he] at h
+      | bound _ _ _ => simp [he] at h
   | call f args =>
     simp only [Expr.ternFree, Bool.and_eq_true] at htf
     simp only [evalC] at h
@@ -197,19 +247,47 @@ theorem exact_eval_succ (p : Prog) (hp : p.ternFree = true) (n : Nat) (ih : Exac
               · cases h
             | assign _ _ => simp [hpj] at h
             | unpack _ _ => simp [hpj] at h
-            | klass _ _ _ => simp [hpj] at h
+            | klass _ _ _ _ _ => simp [hpj] at h
             | probe _ => simp [hpj] at h
         | cls id =>
           simp only [hf, hm] at h
-          split at h
-          · simp only [Option.some.injEq] at h
-            subst h
-            simp [erase]
-          · cases h
+          cases hia : initArityC p n id with
+          | none => simp [hia] at h
+          | some k =>
+            simp only [hia] at h
+            split at h
+            · simp only [Option.some.injEq] at h
+              subst h
+              simp [erase]
+            · cases h
+        | bound recv cid m =>
+          simp only [hf, hm] at h
+          simp only [erase, List.flatMap_cons, List.flatMap_nil, List.append_nil]
+          cases hpj : p[cid]? with
+          | none => simp [hpj] at h
+          | some st =>
+            cases st with
+            | klass c base attrs init methods =>
+              simp only [hpj] at h ⊢
+              cases hfm : findMethod methods m with
+              | none => simp [hfm] at h
+              | some md =>
+                simp only [hfm] at h ⊢
+                split at h
+                · have hret : md.ret.ternFree = true := by
+                    have := stmt_ternFree hp hpj
+                    simp only [Stmt.ternFree, Bool.and_eq_true] at this
+                    exact methods_ternFree this.2 hfm
+                  exact ih.eval (.meth cid (some m) recv vs) md.ret v hret h
+                · cases h
+            | assign _ _ => simp [hpj] at h
+            | unpack _ _ => simp [hpj] at h
+            | defn _ _ _ => simp [hpj] at h
+            | probe _ => simp [hpj] at h
         | int => simp [hf, hm] at h
         | str => simp [hf, hm] at h
         | tuple _ => simp [hf, hm] at h
-        | inst _ => simp [hf, hm] at h
+        | inst _ _ => simp [hf, hm] at h
   | attr e a =>
     simp only [Expr.ternFree] at htf
     simp only [evalC] at h
@@ -219,18 +297,34 @@ theorem exact_eval_succ (p : Prog) (hp : p.ternFree = true) (n : Nat) (ih : Exac
       have hm := ih.eval cc e _ htf he
       simp only [mayE, hm]
       cases w with
-      | inst id =>
+      | inst id args =>
         simp only [he] at h
         simp only [erase, List.flatMap_cons, List.flatMap_nil, List.append_nil]
-        exact ih.attr id a v h
+        cases hsa : selfAttrC p n id (.inst id args) args a with
+        | found v' =>
+          simp only [hsa, Option.some.injEq] at h
+          subst h
+          have := ih.selfFound id (.inst id args) args a v' hsa
+          simp only [erase] at this
+          simp [this]
+        | missing =>
+          simp only [hsa] at h
+          have hnone := ih.selfMissing id (.inst id args) args a hsa
+          simp only [erase] at hnone
+          simp only [hnone]
+          have := ih.attr (some (.inst id args)) id a v h
+          simpa [erase] using this
+        | error => simp [hsa] at h
       | cls id =>
         simp only [he] at h
         simp only [erase, List.flatMap_cons, List.flatMap_nil, List.append_nil]
-        exact ih.attr id a v h
+        have := ih.attr none id a v h
+        simpa using this
       | int => simp [he] at h
       | str => simp [he] at h
       | tuple _ => simp [he] at h
       | func _ => simp [he] at h
+      | bound _ _ _ => simp [he] at h
   | tern c a b => simp [Expr.ternFree] at htf
 
 theorem exact_name_succ (p : Prog) (hp : p.ternFree = true) (n : Nat) (ih : Exact p n) :
@@ -273,20 +367,47 @@ theorem exact_name_succ (p : Prog) (hp : p.ternFree = true) (n : Nat) (ih : Exac
             | str => simp [he, hi] at h
             | func _ => simp [he, hi] at h
             | cls _ => simp [he, hi] at h
-            | inst _ => simp [he, hi] at h
+            | inst _ _ => simp [he, hi] at h
+            | bound _ _ _ => simp [he, hi] at h
       | defn f params ret =>
         simp only [hpj, Option.some.injEq] at h ⊢
         subst h
         rfl
-      | klass c base attrs =>
+      | klass c base attrs init methods =>
         simp only [hpj, Option.some.injEq] at h ⊢
         subst h
         rfl
       | probe e => simp [hpj] at h
 
+theorem exact_attr_base_step (p : Prog) (n : Nat) (ih : Exact p n) (rc : Option Val)
+    (b id a : Nat) (v : Val)
+    (h : (match nameC p n b id with
+          | some (.cls bid) => attrC p n rc bid a
+          | _ => none) = some v) :
+    ((nameA p n b id).flatMap fun s =>
+      match s with
+      | .cls bid => attrA p n (rc.map erase) bid a
+      | _ => []) = [erase v] := by
+  cases hn : nameC p n b id with
+  | none => simp [hn] at h
+  | some w =>
+    cases w with
+    | cls bid =>
+      simp only [hn] at h
+      have hm := ih.name b id _ hn
+      simp only [hm, erase, List.flatMap_cons, List.flatMap_nil, List.append_nil]
+      exact ih.attr rc bid a v h
+    | int => simp [hn] at h
+    | str => simp [hn] at h
+    | tuple _ => simp [hn] at h
+    | func _ => simp [hn] at h
+    | inst _ _ => simp [hn] at h
+    | bound _ _ _ => simp [hn] at h
+
 theorem exact_attr_succ (p : Prog) (hp : p.ternFree = true) (n : Nat) (ih : Exact p n) :
-    ∀ id a v, attrC p (n + 1) id a = some v → attrA p (n + 1) id a = [erase v] := by
-  intro id a v h
+    ∀ rc id a v, attrC p (n + 1) rc id a = some v →
+      attrA p (n + 1) (rc.map erase) id a = [erase v] := by
+  intro rc id a v h
   simp only [attrC] at h
   simp only [attrA]
   cases hpj : p[id]? with
@@ -294,46 +415,138 @@ theorem exact_attr_succ (p : Prog) (hp : p.ternFree = true) (n : Nat) (ih : Exac
   | some st =>
     have hst := stmt_ternFree hp hpj
     cases st with
-    | klass c base attrs =>
+    | klass c base attrs init methods =>
       simp only [hpj] at h ⊢
+      simp only [Stmt.ternFree, Bool.and_eq_true] at hst
       cases hl : lastAttr attrs a with
       | some e =>
         simp only [hl] at h ⊢
-        have he : e.ternFree = true := lastAttr_ternFree (by simpa [Stmt.ternFree] using hst) hl
-        exact ih.eval (.module id) e v he h
+        exact ih.eval (.module id) e v (lastAttr_ternFree hst.1.1 hl) h
       | none =>
         simp only [hl] at h ⊢
-        cases base with
-        | none => simp at h
-        | some b =>
-          simp only at h ⊢
-          cases hn : nameC p n b id with
-          | none => simp [hn] at h
-          | some w =>
-            cases w with
-            | cls bid =>
-              simp only [hn] at h
-              have hm := ih.name b id _ hn
-              simp only [hm, erase, List.flatMap_cons, List.flatMap_nil, List.append_nil]
-              exact ih.attr bid a v h
-            | int => simp [hn] at h
-            | str => simp [hn] at h
-            | tuple _ => simp [hn] at h
-            | func _ => simp [hn] at h
-            | inst _ => simp [hn] at h
+        cases hfm : findMethod methods a with
+        | some md =>
+          cases rc with
+          | none => simp [hfm] at h
+          | some r =>
+            simp only [hfm, Option.some.injEq, Option.map_some] at h ⊢
+            subst h
+            rfl
+        | none =>
+          cases base with
+          | none => cases rc <;> simp [hfm] at h
+          | some b =>
+            cases rc with
+            | none =>
+              simp only [hfm, Option.map_none] at h ⊢
+              exact exact_attr_base_step p n ih none b id a v h
+            | some r =>
+              simp only [hfm, Option.map_some] at h ⊢
+              exact exact_attr_base_step p n ih (some r) b id a v h
     | assign _ _ => simp [hpj] at h
     | unpack _ _ => simp [hpj] at h
     | defn _ _ _ => simp [hpj] at h
     | probe _ => simp [hpj] at h
 
-theorem exact (p : Prog) (hp : p.ternFree = true) : ∀ fuel, Exact p fuel := by
+theorem allAttr_single {l : List (Nat × Expr)} {a : Nat} {e : Expr}
+    (hla : lastAttr l a = some e) (hlen : (allAttr l a).length ≤ 1) : allAttr l a = [e] := by
+  have hmem := lastAttr_mem_allAttr hla
+  cases hall : allAttr l a with
+  | nil => rw [hall] at hmem; simp at hmem
+  | cons x xs =>
+    rw [hall] at hlen hmem
+    cases xs with
+    | nil =>
+      simp only [List.mem_singleton] at hmem
+      rw [hmem]
+    | cons y ys => simp at hlen
+
+theorem single_assign {p : Prog} (hs : SingleAssignInit p = true) {id c : Nat} {base attrs i methods}
+    (hp : p[id]? = some (.klass c base attrs (some i) methods)) {a : Nat} {e : Expr}
+    (hla : lastAttr i.assigns a = some e) : (allAttr i.assigns a).length ≤ 1 := by
+  unfold SingleAssignInit at hs
+  rw [List.all_eq_true] at hs
+  have := hs _ (List.mem_of_getElem? hp)
+  simp only at this
+  rw [List.all_eq_true] at this
+  unfold lastAttr at hla
+  simp only [Option.map_eq_some_iff] at hla
+  obtain ⟨ae, hae, rfl⟩ := hla
+  have hmem := List.mem_filter.mp (List.mem_of_getLast? hae)
+  have h1 := this ae hmem.1
+  have ha : ae.1 = a := by simpa using hmem.2
+  rw [ha] at h1
+  simpa using h1
+
+theorem exact_selfFound_succ (p : Prog) (hp : p.ternFree = true) (hwf : WFClasses p = true)
+    (hs : SingleAssignInit p = true) (n : Nat) (ih : Exact p n) :
+    ∀ id sv vs a v, selfAttrC p (n + 1) id sv vs a = .found v →
+      selfAttrA p (n + 1) id (erase sv) (eraseList vs) a = some [erase v] := by
+  intro id sv vs a v h
+  simp only [selfAttrC] at h
+  simp only [selfAttrA]
+  cases hpj : p[id]? with
+  | none => simp [hpj] at h
+  | some st =>
+    have hst := stmt_ternFree hp hpj
+    cases st with
+    | klass c base attrs init methods =>
+      simp only [hpj] at h ⊢
+      cases init with
+      | some i =>
+        simp only at h ⊢
+        cases hla : lastAttr i.assigns a with
+        | none => simp [hla] at h
+        | some e =>
+          simp only [hla] at h
+          cases hev : evalC p n (.meth id none sv vs) e with
+          | none => simp [hev] at h
+          | some v' =>
+            simp only [hev, Found.found.injEq] at h
+            subst h
+            have hsingle := allAttr_single hla (single_assign hs hpj hla)
+            rw [hsingle]
+            simp only [List.flatMap_cons, List.flatMap_nil, List.append_nil]
+            have he : e.ternFree = true := by
+              simp only [Stmt.ternFree, Bool.and_eq_true] at hst
+              exact lastAttr_ternFree hst.1.2 hla
+            have := ih.eval (.meth id none sv vs) e v' he hev
+            simp only [eraseCtx] at this
+            rw [this]
+      | none =>
+        simp only at h ⊢
+        cases base with
+        | none => simp at h
+        | some b =>
+          simp only at h ⊢
+          obtain ⟨-, j, c', b', a', i', m', hb, hj⟩ := wf_base hwf hpj
+          cases n with
+          | zero => simp [nameC] at h
+          | succ m =>
+            obtain ⟨hnc, hna⟩ := name_of_klass hb hj m
+            rw [hnc] at h
+            rw [hna]
+            simp only [firstSome] at h ⊢
+            rw [ih.selfFound j sv vs a v h]
+    | assign _ _ => simp [hpj] at h
+    | unpack _ _ => simp [hpj] at h
+    | defn _ _ _ => simp [hpj] at h
+    | probe _ => simp [hpj] at h
+
+theorem exact (p : Prog) (hp : p.ternFree = true) (hwf : WFClasses p = true)
+    (hs : SingleAssignInit p = true) : ∀ fuel, Exact p fuel := by
   intro fuel
   induction fuel with
   | zero =>
     exact ⟨by intro cc e v _ h; simp [evalC] at h,
            by intro x lim v h; simp [nameC] at h,
-           by intro id a v h; simp [attrC] at h⟩
+           by intro rc id a v h; simp [attrC] at h,
+           by intro id sv vs a v h; simp [selfAttrC] at h,
+           by intro id sv vs a h; simp [selfAttrC] at h⟩
   | succ n ih =>
-    exact ⟨exact_eval_succ p hp n ih, exact_name_succ p hp n ih, exact_attr_succ p hp n ih⟩
+    exact ⟨exact_eval_succ p hp n ih, exact_name_succ p hp n ih, exact_attr_succ p hp n ih,
+      exact_selfFound_succ p hp hwf hs n ih,
+      fun id sv vs a h =>
+        sound_selfMissing_succ p hwf n (sound p hwf n) id sv (erase sv) vs (eraseList vs) a h⟩
 
 end JediModel.PyCore
